@@ -56,6 +56,7 @@ class FeatureIdStorage:
     def __init__(self, id_distributor, genedb = None, chr_id = None, feature = "exon"):
         self.id_distributor = id_distributor
         self.id_dict = {}
+        self.used_ids = set()
         self.feature_name = feature
         if not genedb or not chr_id:
             return
@@ -66,6 +67,7 @@ class FeatureIdStorage:
                 feature_tuple = (chr_id, f.start, f.end, f.strand)
                 try:
                     self.id_dict[feature_tuple] = f.attributes[id_attribute][0]
+                    self.used_ids.add(f.attributes[id_attribute][0])
                 except IndexError:
                     pass
 
@@ -73,6 +75,10 @@ class FeatureIdStorage:
         feature_tuple = (chr_id, feature[0], feature[1], strand)
         if feature_tuple not in self.id_dict:
             feature_id = chr_id + ".%d" % self.id_distributor.increment()
+            while feature_id in self.used_ids:
+                # do not reuse ids present in the reference annotation
+                feature_id = chr_id + ".%d" % self.id_distributor.increment()
+            self.used_ids.add(feature_id)
             self.id_dict[feature_tuple] = feature_id
         else:
             feature_id =  self.id_dict[feature_tuple]
